@@ -1,0 +1,75 @@
+//go:build verif
+
+// Verification hooks (build tag "verif") for the property-based checks kept outside this
+// repository. Nothing here changes behaviour.
+
+package intermediate
+
+import "time"
+
+// VerifShiftDeadlines moves every queued deadline d into the past, which is what the passing
+// of d of wall-clock time amounts to for the expiry logic (virtual time). A uniform shift keeps
+// the heap order valid.
+func (a *AggregationProcess) VerifShiftDeadlines(d time.Duration) {
+	a.mutex.Lock()
+	defer a.mutex.Unlock()
+	for _, item := range a.expirePriorityQueue {
+		item.activeExpireTime = item.activeExpireTime.Add(-d)
+		item.inactiveExpireTime = item.inactiveExpireTime.Add(-d)
+	}
+	for _, rec := range a.flowKeyRecordMap {
+		// items that are not in the queue (must never happen) are shifted too, once
+		if it := rec.PriorityQueueItem; it != nil && (it.index < 0 || it.index >= len(a.expirePriorityQueue) || a.expirePriorityQueue[it.index] != it) {
+			it.activeExpireTime = it.activeExpireTime.Add(-d)
+			it.inactiveExpireTime = it.inactiveExpireTime.Add(-d)
+		}
+	}
+}
+
+// VerifQueueEntry describes one entry of the expiry heap, in heap-array order.
+type VerifQueueEntry struct {
+	Key           FlowKey
+	Active        time.Time
+	Inactive      time.Time
+	Index         int  // the entry's own back-pointer
+	InMap         bool // the key is held in the flow map
+	MapPointsHere bool // and the held record's queue item is this entry
+}
+
+// VerifFlowEntry describes one held flow.
+type VerifFlowEntry struct {
+	Key         FlowKey
+	ItemIndex   int  // index stored in the flow's queue item (-1: none)
+	ItemInQueue bool // queue[ItemIndex] is the flow's item
+	Ready       bool
+	Retries     int
+	Filled      bool
+}
+
+// VerifSnapshot returns the expiry heap (array order) and the held flows.
+func (a *AggregationProcess) VerifSnapshot() ([]VerifQueueEntry, []VerifFlowEntry) {
+	a.mutex.Lock()
+	defer a.mutex.Unlock()
+	queue := make([]VerifQueueEntry, 0, len(a.expirePriorityQueue))
+	for _, item := range a.expirePriorityQueue {
+		e := VerifQueueEntry{Active: item.activeExpireTime, Inactive: item.inactiveExpireTime, Index: item.index}
+		if item.flowKey != nil {
+			e.Key = *item.flowKey
+			if rec, ok := a.flowKeyRecordMap[*item.flowKey]; ok {
+				e.InMap = true
+				e.MapPointsHere = rec.PriorityQueueItem == item
+			}
+		}
+		queue = append(queue, e)
+	}
+	flows := make([]VerifFlowEntry, 0, len(a.flowKeyRecordMap))
+	for key, rec := range a.flowKeyRecordMap {
+		f := VerifFlowEntry{Key: key, ItemIndex: -1, Ready: rec.ReadyToSend, Retries: rec.waitForReadyToSendRetries, Filled: rec.areCorrelatedFieldsFilled}
+		if it := rec.PriorityQueueItem; it != nil {
+			f.ItemIndex = it.index
+			f.ItemInQueue = it.index >= 0 && it.index < len(a.expirePriorityQueue) && a.expirePriorityQueue[it.index] == it
+		}
+		flows = append(flows, f)
+	}
+	return queue, flows
+}
